@@ -78,6 +78,7 @@ def units(tier):
         for perm in range(6):
             yield {"leg": "seqvar", "k": k, "perm": perm}
     yield {"leg": "limit"}
+    yield {"leg": "legacy"}
     yield {"leg": "cli"}
 
 
@@ -433,6 +434,49 @@ def _limit(R, only):
                 scratch.rm(out)
 
 
+def _legacy(R, only):
+    """a version-2 file (no storage-mode attribute: to be read as symmetric-upper, per the schema) as source"""
+    import cooler
+    import h5py
+    import shutil
+    R.add("states")
+    R.add("traces")
+    for kk, ti in enumerate((len(tables()) - 4, 7)):
+        t = tables()[ti]
+        n = alpha.table_nbins(t)
+        cells = alpha.structured(n, True)[1][1]
+        uri, bins, pix = _source(ti, True, "full", cells)
+        src = scratch.fresh()
+        shutil.copy(uri, src)
+        with h5py.File(src, "r+") as f:
+            del f.attrs["storage-mode"]
+            f.attrs["format-version"] = 2
+        for k in (2, 3):
+            inner = {"table": ti, "k": k}
+            if only is not None and only != inner:
+                continue
+            R.order = (R.order[0], kk * 4 + k)
+            R.ev(1, 1)
+            R.add("transitions")
+            R.cls("legacy-v2-source")
+            out = scratch.fresh()
+            try:
+                cooler.coarsen_cooler(src, out, k, chunksize=3, columns=["count", "score"])
+                _judge(R, inner, out, bins, pix, k, ["count", "score"], None)
+                newbins, want = _want(bins, pix, k, ["count"], None)
+                M = np.zeros((len(newbins), len(newbins)))
+                for (i, j), v in want.items():
+                    M[i, j] = M[j, i] = v["count"]
+                A = cooler.Cooler(out).matrix(balance=False)[:]
+                if not np.array_equal(A, M):
+                    R.mismatch("coarsened-legacy-file-does-not-read-as-symmetric", inner, f"storage-mode={cooler.Cooler(out).storage_mode}")
+            except Exception as e:
+                R.mismatch("coarsen-raises:" + type(e).__name__, inner, f"{e!s:.300}")
+            finally:
+                scratch.rm(out)
+        scratch.rm(src)
+
+
 def _cli(R, only):
     ti = len(tables()) - 4
     t = tables()[ti]
@@ -488,5 +532,7 @@ def run(unit, R, tier, only=None):
         _seqvar(R, unit, only)
     elif leg == "limit":
         _limit(R, only)
+    elif leg == "legacy":
+        _legacy(R, only)
     else:
         raise ValueError(leg)
